@@ -967,3 +967,33 @@ pub fn crash_case(seed: u64, tag: &str, p: &ProtoCfg, point: &str, occ: u64, pre
   steps.push(Step::Fresh { limit: None });
   scenario(format!("{tag}-crash-{point}-{occ}-f{fork_depth}-seed{seed}"), p, steps)
 }
+
+/// C13: a crashed run and its uninterrupted control over the same history, which continues after the
+/// crash with more blocks and a reorg: every update of the crashed run must end like the control's.
+pub fn crash_pair(seed: u64, tag: &str, p: &ProtoCfg, point: &str, occ: u64, pre: usize, more: usize, later: usize, depth: usize) -> Vec<Scenario> {
+  let mut out = Vec::new();
+  for crashed in [false, true] {
+    let mut cg = ChainGen::new(seed, tag, light_cfg());
+    let mut steps = Vec::new();
+    cg.mine(&mut steps, pre);
+    steps.push(Step::Update);
+    cg.mine(&mut steps, more);
+    if crashed {
+      steps.push(Step::Crash { point: point.to_string(), occ });
+    } else {
+      steps.push(Step::Update);
+    }
+    steps.push(Step::Update);
+    steps.push(Step::State);
+    cg.mine(&mut steps, later);
+    steps.push(Step::Update);
+    steps.push(Step::State);
+    cg.fork(&mut steps, depth, depth + 1);
+    steps.push(Step::Update);
+    steps.push(Step::State);
+    steps.push(Step::Fresh { limit: None });
+    let kind = if crashed { "crash" } else { "control" };
+    out.push(scenario(format!("{tag}-pair-{point}-{occ}-p{pre}m{more}l{later}d{depth}-seed{seed}#{kind}"), p, steps));
+  }
+  out
+}
